@@ -217,7 +217,8 @@ ERRORS = ["missing_config", "invalid_yaml", "yaml_wrong_type", "missing_source_d
           "empty_source_dir", "missing_required_key", "explicit_empty_extensions", "use_cache_not_a_bool",
           "rust_without_log_macros", "log_macros_misspelt", "rust_is_a_list", "macro_entry_without_name",
           "source_dir_misspelt", "empty_file", "config_is_a_directory", "yaml_is_a_scalar", "structured_not_a_bool",
-          "extensions_not_a_list", "tab_indented", "binary_garbage"]
+          "extensions_not_a_list", "tab_indented", "binary_garbage", "extension_with_dot", "use_cache_quoted", "structured_yes",
+          "two_documents", "config_is_a_dangling_symlink", "config_is_a_fifo_free_special"]
 
 
 def error_work(job):
@@ -274,6 +275,19 @@ def error_work(job):
             box.write("Breadlog.yaml", core.make_config().replace("  log_macros", "\tlog_macros"))
         elif kind == "binary_garbage":
             box.write("Breadlog.yaml", b"\x00\xff\xfe---\nsource_dir: src\n\x80\x81")
+        elif kind == "extension_with_dot":
+            box.write("Breadlog.yaml", core.make_config(extensions=[".rs"]))        # never equals a file's extension: no in-scope files
+        elif kind == "use_cache_quoted":
+            box.write("Breadlog.yaml", core.make_config().replace("source_dir: src\n", "source_dir: src\nuse_cache: \"true\"\n"))
+        elif kind == "structured_yes":
+            box.write("Breadlog.yaml", core.make_config().replace("rust:\n", "rust:\n  structured: yes\n"))
+        # (`source_dir: ""` is the configuration directory itself - a valid configuration, not an error case)
+        elif kind == "two_documents":
+            box.write("Breadlog.yaml", core.make_config() + "---\nsource_dir: other\n")
+        elif kind == "config_is_a_dangling_symlink":
+            os.symlink("nowhere.yaml", cfgp)
+        elif kind == "config_is_a_fifo_free_special":
+            os.symlink("/dev/null", cfgp)
         elif kind == "empty_source_dir":
             os.makedirs(os.path.join(box.proj, "emptysrc"))
             box.write("Breadlog.yaml", core.make_config(source_dir="emptysrc"))
